@@ -263,6 +263,7 @@ pub fn run_case(fx: &Fixture, si: usize, di: usize) -> (u64, Option<Violation>) 
 pub fn run(tier: Tier) -> i32 {
     let mut rep = Report::new("C19", tier);
     // the thorough bounds of this property take seconds: the quick tier runs them too
+    crate::report::note_tier(tier);
     let tier = { let _ = tier; Tier::Thorough };
     rep.rule("sweep: every datagram of the alphabet {valid request at 1078 B and padded to 1079/1100/1400; truncated by 1/16/17/500; 9 single-field corruptions; foreign key / foreign protocol / wrong host / expired tokens; valid responses with client sequence 0, 1, 300, padded, truncated; garbage challenge; another session's challenge; another token's keys; all 256 prefix bytes x the parser-threshold length list} presented three times in a row from an address without a completed handshake, in server states {empty, source pending, other address pending, full, full with source pending, another client connected}; oracle per call: at most one reply, addressed to the source, strictly smaller than the datagram received, and no reply at all for datagrams carrying neither a valid connect token nor a valid response");
     rep.assume("one process_packet call returns at most one datagram by construction of ServerResult; the transport sends exactly what it returns");
@@ -291,6 +292,7 @@ pub fn replay(j: &J) -> i32 {
         Some("thorough") => Tier::Thorough,
         _ => Tier::Quick,
     };
+    crate::report::note_tier(tier);
     let tier = { let _ = tier; Tier::Thorough };
     let fx = match fixture(tier) {
         Ok(f) => f,
